@@ -227,13 +227,38 @@ def segmentation(ctx):
         sl = [slice_parts(n.value) for n in walk_local(lp) if isinstance(n, ast.Assign) and dotted(n.targets[0]) == 'payload']
         if a == ['0', 'len(sdu)', 'self.peer_mps'] and sl == [('sdu', off, f'{off} + self.peer_mps')]:
             ok = True
-            tests = [norm(n.test) for n in walk_local(lp) if isinstance(n, ast.If)]
-            R.check(f'{off} == 0' in tests and f'{off} + len(payload) >= len(sdu)' in tests, rule, f'{ERTM}.send_sdu | SAR from offsets', 'START iff offset == 0, END iff offset + len(payload) >= len(sdu)', f'SAR tests are {tests}', p.loc(lp))
+            from .. import sym
+            res = paths.run_block(lp.body, sym.Sym(substitute=False), sym.Sym.init())
+            bad = []
+            kinds = set()
+            end_form = sym.ineq(f'{off} + len(payload) >= len(sdu)')
+            for k_, facts, store, extra, w in sym.exits(res):
+                sar = (store.get('sar') or '').split('.')[-1]
+                kinds.add(sar)
+                first = facts.get(sym.canon_text(f'{off} == 0')[0])
+                at_end = any(sym.same_ineq(sym.ineq(a_, t_), end_form) for a_, t_ in facts.items() if sym.ineq(a_, t_) is not None)
+                not_end = any(sym.same_ineq(sym.ineq(a_, not t_), end_form) for a_, t_ in facts.items() if sym.ineq(a_, t_) is not None)
+                if sar == 'START' and first is not True:
+                    bad.append('START chosen without offset == 0')
+                elif sar == 'END' and not (first is False and at_end):
+                    bad.append(f'END chosen under {sorted(facts.items())}')
+                elif sar == 'CONTINUATION' and not (first is False and not_end):
+                    bad.append(f'CONTINUATION chosen under {sorted(facts.items())}')
+                elif sar not in ('START', 'END', 'CONTINUATION'):
+                    bad.append(f'segment labelled {sar}')
+            R.check(kinds == {'START', 'END', 'CONTINUATION'} and not bad, rule, f'{ERTM}.send_sdu | SAR from offsets', 'START iff offset == 0, END iff offset + len(payload) >= len(sdu), CONTINUATION otherwise', f'SAR tests are {sorted(set(bad)) or sorted(kinds)}', p.loc(lp))
             c = [c for c in calls_in(lp) if call_attr(c) == '_PendingPdu']
             R.check(len(c) == 1 and norm(kwarg(c[0], 'sdu_length')) == 'len(sdu)' and norm(kwarg(c[0], 'payload')) == 'payload', rule, f'{ERTM}.send_sdu | segment fields', 'each segment carries its slice and the total SDU length', 'segment PDU fields changed', p.loc(lp))
     R.check(ok, rule, f'{ERTM}.send_sdu | stride == width == peer_mps', 'range(0, len(sdu), peer_mps) with sdu[offset:offset + peer_mps]: no gap, no overlap, each segment <= peer_mps', 'segmentation stride and slice width differ or are not peer_mps', p.loc(ss))
     first_if = next((n for n in ss.body if isinstance(n, ast.If)), None)
-    R.check(first_if is not None and norm(first_if.test) == 'len(sdu) <= self.peer_mps', rule, f'{ERTM}.send_sdu | unsegmented iff fits', 'unsegmented iff len(sdu) <= peer_mps', 'the unsegmented/segmented decision is not len(sdu) <= peer_mps', p.loc(ss))
+    from ..sym import same_ineq, ineq
+    fits = False
+    if first_if is not None and ineq(first_if.test) is not None:
+        pos = same_ineq(first_if.test, 'len(sdu) <= self.peer_mps')
+        neg = same_ineq(ineq(first_if.test, False), ineq('len(sdu) <= self.peer_mps'))
+        branch = first_if.body if pos else first_if.orelse if neg else []
+        fits = any('UNSEGMENTED' in norm(x) for x in branch) and not any(isinstance(x, ast.For) for st_ in branch for x in ast.walk(st_))
+    R.check(fits, rule, f'{ERTM}.send_sdu | unsegmented iff fits', 'unsegmented iff len(sdu) <= peer_mps', 'the unsegmented/segmented decision is not len(sdu) <= peer_mps', p.loc(ss))
     # SDU length written only with START <-> skipped only for START
     pb = p.find(f'{ERTM}._PendingPdu.__bytes__')
     if pb is None:
